@@ -1,6 +1,8 @@
 /-
-C03 — only justified work is re-executed, for the core engine model (`Model/EngineCore.lean`).
-The `log` field of the state records every executor invocation (`execute` appends its key).
+C03 — only justified work is re-executed, for the core engine model (`Model/EngineCore.lean`: input,
+normal and external-input keys; ordered reads and unordered read groups).
+The `log` field of the state records every executor invocation (`execute` / `executeExt` append the
+key, `refresh` appends every external key it re-runs).
 -/
 import QbiceVerif.Lemmas.EngineCoreEx
 namespace Qbice.Core
@@ -15,7 +17,7 @@ theorem core_exec_justified {p : Program} (wf : WF p) {s : St} (inv : Inv p s) {
       ∀ x, x ∈ new → s.nodes x = none ∨
         ∃ n d o, s.nodes x = some n ∧ (d, o) ∈ n.deps ∧ cur p s d ≠ some o := by
   obtain ⟨_, f, _⟩ := (query_spec wf fuel k hk s inv).ok h
-  obtain ⟨new, h1, _, h3⟩ := f.log
+  obtain ⟨new, h1, _, h3, _⟩ := f.log
   exact ⟨new, h1, fun x hx => (h3 x hx).1.2⟩
 
 /-- "at most one execution per key between two input sessions": the keys executed by a query are
@@ -27,12 +29,69 @@ theorem core_exec_once {p : Program} (wf : WF p) {s : St} (inv : Inv p s) {k fue
       ∀ x, x ∈ new → (¬ ∃ n, s.nodes x = some n ∧ n.lastVerified = s.epoch) ∧
         ∃ n', s'.nodes x = some n' ∧ n'.lastVerified = s'.epoch := by
   obtain ⟨_, f, _⟩ := (query_spec wf fuel k hk s inv).ok h
-  obtain ⟨new, h1, h2, h3⟩ := f.log
+  obtain ⟨new, h1, h2, h3, _⟩ := f.log
   exact ⟨new, h1, h2, fun x hx => ⟨(h3 x hx).1.1, (h3 x hx).2⟩⟩
+
+/-- "an external-input executor runs on first demand and under `refresh`, never otherwise": an
+    external key appears among the executions of a successful query only if it had no node in the
+    start state (so a query never re-runs it, whatever its stamp and whatever the world has become);
+    every execution logged by a session is that of an external key that had been computed before the
+    session, and the session contains a `refresh` write (a session without one executes nothing). -/
+theorem core_external_only_on_demand_or_refresh {p : Program} (wf : WF p) {s : St} (inv : Inv p s) :
+    (∀ {k fuel : Nat}, k < fuel → ∀ {v : Val} {s' : St}, query p fuel k s = .ok (v, s') →
+      ∃ new, s'.log = s.log ++ new ∧
+        ∀ x d, x ∈ new → p[x]? = some d → d.kind = .external → s.nodes x = none) ∧
+    (∀ {ws : List Write} {rs : List SetRes} {s' : St}, session p ws s = .ok (rs, s') →
+      ∃ new, s'.log = s.log ++ new ∧
+        ∀ x, x ∈ new → Write.refresh ∈ ws ∧ ∃ n, s.nodes x = some n ∧ n.kind = .external) := by
+  refine ⟨?_, ?_⟩
+  · intro k fuel hk v s' h
+    obtain ⟨_, f, _⟩ := (query_spec wf fuel k hk s inv).ok h
+    obtain ⟨new, h1, _, h3, _⟩ := f.log
+    refine ⟨new, h1, ?_⟩
+    intro x d hx hp hd
+    rcases (h3 x hx).1.2 with h0 | ⟨n, dd, o, hn, hm, _⟩
+    · exact h0
+    · obtain ⟨d', hp', hk', hnd⟩ := inv.kind x n hn
+      rw [hp] at hp'; cases hp'
+      rw [hnd (by rw [← hk', hd]; decide)] at hm
+      cases hm
+  · intro ws rs s' h
+    obtain ⟨_, _, _, _, _, _, hl⟩ := session_spec inv h
+    exact hl
+
+/-- "`refresh` re-runs the executor of every external key computed so far": a session that consists
+    of one `refresh` logs exactly the external keys that have a node, in key order, each once. -/
+theorem core_refresh_reexecutes_all_externals {p : Program} {s : St} {rs : List SetRes} {s' : St}
+    (h : session p [.refresh] s = .ok (rs, s')) :
+    rs = [.refreshed] ∧ s'.log = s.log ++ (List.range p.length).filter (isExtNode s) := by
+  simp only [session, applySets, refreshAll, List.nil_append, Except.ok.injEq, Prod.mk.injEq] at h
+  obtain ⟨h1, h2⟩ := h
+  subst h1; subst h2
+  exact ⟨rfl, rfl⟩
+
+/-- in `exV` the external key 1 has a node from an earlier epoch and the world has changed since:
+    querying it (or key 3 above it) executes nothing; the `refresh` session runs exactly key 1; a
+    session with a world write only runs nothing -/
+example : WF exQ ∧ Inv exQ exV ∧ (exV.nodes 1).map (·.lastVerified) ≠ some exV.epoch ∧
+    (query exQ (fuelFor exQ) 1 exV).toOption.map (fun r => (r.1, r.2.log)) = some (7, []) ∧
+    (query exQ (fuelFor exQ) 3 exV).toOption.map (fun r => (r.1, r.2.log)) = some (16, []) ∧
+    (session exQ [.refresh] exV).toOption.map (·.2.log) = some [1] ∧
+    (session exQ [.world 1 3] exV).toOption.map (·.2.log) = some [] :=
+  ⟨exQ_wf, exV_inv, by decide, by decide, by decide, by decide, by decide⟩
 
 example : WF exP ∧ Inv exP exS ∧ 3 < fuelFor exP ∧ exS.log = [] ∧
     (query exP (fuelFor exP) 3 exS).toOption.map (·.2.log) = some [2, 3] :=
   ⟨exP_wf, exS_inv, by decide, by decide, by decide⟩
+
+/-- non-vacuity with an unordered group: in `exW` key 2 read keys 0 and 1 in one unordered group
+    (recorded as the flat list `[(0, 1), (1, 7)]`); the external key 1 was refreshed to 9 since: key 2
+    is re-executed (justified by the member `(1, 7)`), then key 3; the external key is not. -/
+example : WF exQ ∧ Inv exQ exW ∧ (exW.nodes 2).map (·.deps) = some [(0, 1), (1, 7)] ∧
+    cur exQ exW 1 = some 9 ∧
+    (query exQ (fuelFor exQ) 3 { exW with log := [] }).toOption.map (fun r => (r.1, r.2.log)) =
+      some (20, [2, 3]) :=
+  ⟨exQ_wf, exW_inv, by decide, by decide, by decide⟩
 
 /-- the same over any number of rounds (tracked engines) run within one epoch: all executions are
     of distinct keys and each is justified with respect to the state before the first round. -/
@@ -43,7 +102,7 @@ theorem core_rounds_exec_once {p : Program} (wf : WF p) {s : St} (inv : Inv p s)
       ∀ x, x ∈ new → (¬ ∃ n, s.nodes x = some n ∧ n.lastVerified = s.epoch) ∧
         (s.nodes x = none ∨ ∃ n d o, s.nodes x = some n ∧ (d, o) ∈ n.deps ∧ cur p s d ≠ some o) := by
   obtain ⟨_, _, f⟩ := (runRounds_spec wf kss s inv).ok h
-  obtain ⟨new, h1, h2, h3⟩ := f.log
+  obtain ⟨new, h1, h2, h3, _⟩ := f.log
   exact ⟨new, h1, h2, fun x hx => (h3 x hx).1⟩
 
 example : Inv exP exS ∧
@@ -72,19 +131,28 @@ theorem core_clean_query_executes_nothing {p : Program} {s : St} (inv : Inv p s)
   query_clean_no_exec inv hn hcl h
 
 /-- "after a session all of whose writes were `Unchanged`, a query of a key that was verified before
-    the session executes nothing" and returns the stored value. -/
+    the session executes nothing" and returns the stored value — also when the session changed world
+    cells (without a `refresh` the external values do not move). -/
 theorem core_noop_session_executes_nothing {p : Program} {s : St} (inv : Inv p s)
-    {sets : List (Key × Val)} {rs : List SetRes} {s1 : St} (hs : session p sets s = .ok (rs, s1))
-    (hall : ∀ r, r ∈ rs → r = SetRes.unchanged) {k : Key} {n : Node} (hn : s.nodes k = some n)
+    {ws : List Write} {rs : List SetRes} {s1 : St} (hs : session p ws s = .ok (rs, s1))
+    (hall : ∀ r, r ∈ rs → r = SetRes.unchanged ∨ r = SetRes.world) {k : Key} {n : Node}
+    (hn : s.nodes k = some n)
     (hv : n.lastVerified = s.epoch) {fuel : Nat} {v : Val} {s2 : St}
     (hq : query p fuel k s1 = .ok (v, s2)) : s2.log = s.log ∧ v = n.value :=
   noop_session_no_exec inv hs hall hn hv hq
 
 example : Inv exP exT ∧ (exT.nodes 3).map (·.lastVerified) = some exT.epoch ∧
-    (session exP [(1, 5), (0, 1)] exT).toOption.map (·.1) = some [.unchanged, .unchanged] ∧
-    (match session exP [(1, 5), (0, 1)] exT with
+    (session exP [.set 1 5, .set 0 1] exT).toOption.map (·.1) = some [.unchanged, .unchanged] ∧
+    (match session exP [.set 1 5, .set 0 1] exT with
       | .ok (_, s1) => (query exP (fuelFor exP) 3 s1).toOption.map (fun r => (r.1, r.2.log))
       | .error _ => none) = some (30, exT.log) :=
   ⟨exT_inv, by decide, by decide, by decide⟩
+
+example : Inv exQ exU ∧ (exU.nodes 3).map (·.lastVerified) = some exU.epoch ∧
+    (session exQ [.world 1 9, .set 0 1] exU).toOption.map (·.1) = some [.world, .unchanged] ∧
+    (match session exQ [.world 1 9, .set 0 1] exU with
+      | .ok (_, s1) => (query exQ (fuelFor exQ) 3 s1).toOption.map (fun r => (r.1, r.2.log))
+      | .error _ => none) = some (16, exU.log) :=
+  ⟨exU_inv, by decide, by decide, by decide⟩
 
 end Qbice.Core
